@@ -16,7 +16,7 @@
     r = RSkip (outside the property's domain) -> no claim. *)
 From Coq Require Import ZArith List Bool String.
 From V Require Import Base.Int Base.IO Spec.StrftimeDoc Model.Items Gen.Strftime Model.Strftime Model.Format
-  Proofs.C12 Proofs.C12Str Proofs.C12Tok Proofs.C12Fam Proofs.C12View Proofs.C12All Proofs.C12Judge.
+  Proofs.C12 Proofs.C12Str Proofs.C12Tok Proofs.C12Fam Proofs.C12View Proofs.C12All Proofs.C12Judge Proofs.C12Lenient.
 From V Require Import Spec.Gregorian Model.C12 Judge.C12 Proofs.C08Sweeps.
 From V Require Model.DateTime Model.Time.
 Import ListNotations.
@@ -315,3 +315,47 @@ Theorem C12_holds_items_any : forall fmt l,
                   (run (bytes_of_string "sf.items") [VStr fmt; VInt l])).
 Proof. exact holds_items_any. Qed.
 Print Assumptions C12_holds_items_any.
+
+(** * The lenient iterator on every string, and the internal items
+
+    lenient_never_errors: `StrftimeItems::new_lenient` on EVERY valid UTF-8 string (of a length a
+    Rust string can have) ends within the bound without a trap, and none of its items is
+    [Item::Error]: every invalid specifier comes out as a [Literal] (trap-freedom: C15's slice-safety
+    invariant, Proofs/C15Strftime.v) *)
+Theorem C12_lenient_never_errors : forall s, utf8_valid s = true -> blen s <= u64_max ->
+  exists l, sf_take (S (sf_bound s)) (sf_new_lenient s) [] = Val (Some l) /\ forallb not_err l = true.
+Proof. exact lenient_never_errors. Qed.
+Print Assumptions C12_lenient_never_errors.
+Example C12_lenient_example :
+  sf_take 100 (sf_new_lenient [37; 81]) [] = Val (Some [Literal [37]; Literal [81]]) /\
+  sf_take 100 (sf_new [37; 81]) [] = Val (Some [IError]).
+Proof. exact (conj lenient_example strict_errors_example). Qed.
+Print Assumptions C12_lenient_example.
+
+(** "lenient mode = strict mode with each invalid specifier as ONE literal" does NOT hold of the
+    code: after a padding modifier on a composite specifier ("%-D") the composite's queued items
+    are still yielded — after the literal "%-D" in lenient mode (2001-07-08 prints "%-D/08/01"),
+    after [Error] in strict mode (harmless there: the formatter stops at [Error]).  Reproduced on
+    the real crate through `sf.items` / `sf.fmtl`. *)
+Theorem C12_lenient_recovery_one_literal_refuted :
+  sf_take 100 (sf_new_lenient [37; 45; 68]) [] =
+    Val (Some [Literal [37; 45; 68]; Literal [47]; num0 N_Day; Literal [47]; num0 N_YearMod100]) /\
+  sf_take 100 (sf_new [37; 45; 68]) [] =
+    Val (Some [IError; Literal [47]; num0 N_Day; Literal [47]; num0 N_YearMod100]).
+Proof. exact lenient_pad_on_composite_leaks. Qed.
+Print Assumptions C12_lenient_recovery_one_literal_refuted.
+
+(** the internal items: `%3f` `%6f` `%9f` (Nanosecond3NoDot/6/9) render the documented fraction
+    digits; the parsing-only TimezoneOffsetPermissive behind `%#z` cannot be rendered: formatting
+    fails for every value (the documentation table makes no claim for it) *)
+Theorem C12_render_internal_nodot : forall a sv k, args_view a sv -> k = 3 \/ k = 6 \/ k = 9 ->
+  claim (render_fix sv (TFrac k false))
+        (format_fixed a (F_Internal (if k =? 3 then I_Nanosecond3NoDot else if k =? 6 then I_Nanosecond6NoDot
+                                     else I_Nanosecond9NoDot))).
+Proof. exact render_nodot. Qed.
+Print Assumptions C12_render_internal_nodot.
+Theorem C12_permissive_offset_never_renders : forall a,
+  format_fixed a (F_Internal I_TimezoneOffsetPermissive) = ferr /\
+  delayed_display a (sf_new [37; 35; 122]) = ferr.
+Proof. exact (fun a => conj (permissive_offset_fails a) (permissive_format_fails a)). Qed.
+Print Assumptions C12_permissive_offset_never_renders.
